@@ -414,6 +414,16 @@ func mkProfile(p *tProf, upd time.Time) (rec *agd.Profile, devs []*agd.Device) {
 		if bits&2 != 0 {
 			ac.BlockedNets = []netip.Prefix{netip.MustParsePrefix("2.2.0.0/16"), netip.MustParsePrefix("2001:db8:2::/48"), netip.MustParsePrefix("3.3.3.3/32")}
 		}
+		if s%3 == 0 {
+			// Networks as a backend may write them: with an address inside
+			// the network rather than its first one.
+			for i, p := range ac.AllowedNets {
+				ac.AllowedNets[i] = netip.PrefixFrom(p.Addr().Next(), p.Bits())
+			}
+			for i, p := range ac.BlockedNets[:min(len(ac.BlockedNets), 2)] {
+				ac.BlockedNets[i] = netip.PrefixFrom(p.Addr().Next().Next(), p.Bits())
+			}
+		}
 		if bits&4 != 0 {
 			ac.AllowedASN = []geoip.ASN{geoip.ASN(s)}
 		}
